@@ -58,6 +58,10 @@ type c20Val struct {
 	fld   *types.Var     // root created from a field selection: the field
 	rs    *ast.RangeStmt // rangevar: its loop
 	isKey bool
+	isB   bool               // const: a boolean constant
+	bval  bool               // const: its value
+	flds  map[string]*c20Val // lit: the fields set by the literal, by dotted field path
+	zero  bool               // const: the zero value of a field a literal did not set
 }
 
 func (v *c20Val) String() string {
@@ -90,18 +94,19 @@ const (
 const c20Inf = int64(1) << 60
 
 type c20State struct {
-	env    map[string]*c20Val // current value of each access path
-	memo   map[string]*c20Val // constants, extents and pure operations by operand identity
-	rel    map[[2]int]uint8
-	iv     map[int][2]int64
-	rem    map[string]bool
-	bools  map[int]bool
-	conds  []string
-	opaque int
-	opqDep map[string]bool // dependencies of the opaque conditions passed
-	vals   []*c20Val
-	dead   bool
-	iters  map[*cfg.Block]int
+	env     map[string]*c20Val // current value of each access path
+	memo    map[string]*c20Val // constants, extents and pure operations by operand identity
+	rel     map[[2]int]uint8
+	iv      map[int][2]int64
+	rem     map[string]bool
+	bools   map[int]bool
+	conds   []string
+	opaque  int
+	opqDep  map[string]bool // dependencies of the opaque conditions passed
+	vals    []*c20Val
+	dead    bool
+	iters   map[*cfg.Block]int
+	callRes map[*ast.CallExpr][]*c20Val // results of the helper calls executed in the caller's state (c20ip.go)
 }
 
 func (st *c20State) clone() *c20State {
@@ -133,6 +138,12 @@ func (st *c20State) clone() *c20State {
 	}
 	n.conds = append([]string(nil), st.conds...)
 	n.vals = append([]*c20Val(nil), st.vals...)
+	if len(st.callRes) > 0 {
+		n.callRes = make(map[*ast.CallExpr][]*c20Val, len(st.callRes))
+		for k, v := range st.callRes {
+			n.callRes[k] = v
+		}
+	}
 	return n
 }
 
@@ -225,6 +236,11 @@ type c20Exec struct {
 	maxIter  int               // how often a loop body may be entered on one path
 	paths    int
 	overflow bool
+	// interprocedural execution of helper functions (c20ip.go)
+	indexInit map[ast.Node]*ast.RangeStmt // init statement of an index loop -> the equivalent range statement (c20loop.go)
+	aliasDisp map[string][2]string        // alias source -> (name in the callee, text in the caller) for messages
+	stack     []*types.Func
+	noHelpers bool
 }
 
 func c20NewExec(c *Ctx, g *FG, roles map[types.Object]string) *c20Exec {
@@ -239,6 +255,7 @@ func c20NewExec(c *Ctx, g *FG, roles map[types.Object]string) *c20Exec {
 		}
 		return true
 	})
+	x.registerIndexLoops(g)
 	return x
 }
 
@@ -271,6 +288,8 @@ func (x *c20Exec) constVal(st *c20State, tv types.TypeAndValue, disp string) *c2
 	} else if tv.Value.Kind() == constant.String {
 		v.str = constant.StringVal(tv.Value)
 		v.disp = fmt.Sprintf("%q", v.str)
+	} else if tv.Value.Kind() == constant.Bool {
+		v.isB, v.bval = true, constant.BoolVal(tv.Value)
 	}
 	x.newVal(st, v)
 	st.memo[key] = v
@@ -290,14 +309,12 @@ func c20IsNamed(t types.Type, pkg, name string) bool {
 
 // lookup returns the current value of an access path, creating a root on first use.
 func (x *c20Exec) lookup(st *c20State, e ast.Expr) *c20Val {
-	t := termOf(x.info, e)
-	for from, to := range x.alias {
-		if t.ID == from || strings.HasPrefix(t.ID, from+".") {
-			t.ID = to + t.ID[len(from):]
-		}
-	}
+	t := x.pathTerm(e)
 	if v, ok := st.env[t.ID]; ok {
 		return v
+	}
+	if z := x.zeroOfLit(st, t, e); z != nil {
+		return z
 	}
 	v := &c20Val{kind: "root", disp: t.Disp, deps: map[string]bool{}}
 	if id, ok := unparen(e).(*ast.Ident); ok {
@@ -364,12 +381,39 @@ func (x *c20Exec) eval(st *c20State, e ast.Expr) *c20Val {
 	case *ast.StarExpr:
 		return x.eval(st, t.X)
 	case *ast.IndexExpr:
+		if v := x.elemOf(st, t); v != nil {
+			return v
+		}
 		v := x.lookup(st, t)
 		return v
 	case *ast.CallExpr:
 		return x.evalCall(st, t)
+	case *ast.CompositeLit:
+		if v := x.evalLit(st, t); v != nil {
+			return v
+		}
+	case *ast.UnaryExpr:
+		if t.Op == token.NOT {
+			a := x.eval(st, t.X)
+			return x.newVal(st, &c20Val{kind: "not", args: []*c20Val{a}, disp: types.ExprString(e)})
+		}
 	case *ast.BinaryExpr:
 		switch t.Op {
+		case token.EQL, token.NEQ, token.LSS, token.LEQ, token.GTR, token.GEQ:
+			// a comparison kept as a value: a boolean variable defined by it stands for it when branched on
+			if !isNilExpr(x.info, unparen(t.X)) && !isNilExpr(x.info, unparen(t.Y)) {
+				if bt, ok := x.info.TypeOf(t.X).Underlying().(*types.Basic); ok && bt.Info()&(types.IsInteger|types.IsFloat) != 0 {
+					a, b := x.eval(st, t.X), x.eval(st, t.Y)
+					return x.newVal(st, &c20Val{kind: "cmp", op: t.Op, args: []*c20Val{a, b}, disp: types.ExprString(e)})
+				}
+			}
+		case token.LAND, token.LOR:
+			a, b := x.eval(st, t.X), x.eval(st, t.Y)
+			k := "land"
+			if t.Op == token.LOR {
+				k = "lor"
+			}
+			return x.newVal(st, &c20Val{kind: k, args: []*c20Val{a, b}, disp: types.ExprString(e)})
 		case token.ADD, token.SUB, token.MUL, token.QUO, token.REM, token.SHL, token.SHR, token.AND, token.OR, token.XOR:
 			a, b := x.eval(st, t.X), x.eval(st, t.Y)
 			if t.Op == token.SUB && a.kind == "extmax" && b.kind == "extmin" && a.img == b.img && a.axis == b.axis {
@@ -427,6 +471,15 @@ func (x *c20Exec) extent(st *c20State, kind, axis string, img *c20Val, disp stri
 
 func (x *c20Exec) evalCall(st *c20State, call *ast.CallExpr) *c20Val {
 	disp := types.ExprString(call)
+	if res, ok := st.callRes[call]; ok {
+		switch len(res) {
+		case 0:
+			return x.newVal(st, &c20Val{kind: "opaque", disp: disp})
+		case 1:
+			return res[0]
+		}
+		return x.newVal(st, &c20Val{kind: "tuple", args: res, disp: disp})
+	}
 	// conversion: transparent
 	if tv, ok := x.info.Types[call.Fun]; ok && tv.IsType() && len(call.Args) == 1 {
 		return x.eval(st, call.Args[0])
@@ -492,7 +545,10 @@ func (x *c20Exec) bind(st *c20State, lhs ast.Expr, v *c20Val) {
 	if id, ok := lhs.(*ast.Ident); ok && id.Name == "_" {
 		return
 	}
-	key := termOf(x.info, lhs).ID
+	x.bindKey(st, x.pathTerm(lhs).ID, v)
+}
+
+func (x *c20Exec) bindKey(st *c20State, key string, v *c20Val) {
 	for k := range st.env {
 		if strings.HasPrefix(k, key+".") || strings.HasPrefix(k, key+"[") {
 			delete(st.env, k)
@@ -518,9 +574,20 @@ var c20CompoundOp = map[token.Token]token.Token{token.ADD_ASSIGN: token.ADD, tok
 func (x *c20Exec) step(st *c20State, n ast.Node) {
 	switch s := n.(type) {
 	case *ast.AssignStmt:
+		if rs := x.indexInit[s]; rs != nil && len(s.Lhs) == 1 {
+			// i := 0 of `for i := 0; i < len(X); i++`: i is the key of a loop over X
+			x.bind(st, s.Lhs[0], x.newVal(st, &c20Val{kind: "rangevar", disp: types.ExprString(s.Lhs[0]), rs: rs, isKey: true}))
+			return
+		}
 		if s.Tok == token.ASSIGN || s.Tok == token.DEFINE {
 			if len(s.Rhs) == 1 && len(s.Lhs) > 1 {
 				rv := x.eval(st, s.Rhs[0])
+				if rv.kind == "tuple" && len(rv.args) == len(s.Lhs) {
+					for i, l := range s.Lhs {
+						x.bind(st, l, rv.args[i])
+					}
+					return
+				}
 				for i, l := range s.Lhs {
 					r := &c20Val{kind: "result", k: int64(i), hasK: true, args: []*c20Val{rv}, disp: fmt.Sprintf("%s#%d", rv.disp, i), deps: map[string]bool{}}
 					x.newVal(st, r)
@@ -535,7 +602,7 @@ func (x *c20Exec) step(st *c20State, n ast.Node) {
 			}
 			for i, l := range s.Lhs {
 				if i < len(vals) {
-					x.bind(st, l, vals[i])
+					x.assign(st, l, s.Rhs[i], vals[i])
 				}
 			}
 			return
@@ -569,7 +636,7 @@ func (x *c20Exec) step(st *c20State, n ast.Node) {
 		for i, name := range vs.Names {
 			switch {
 			case len(vs.Values) == len(vs.Names):
-				x.bind(st, name, x.eval(st, vs.Values[i]))
+				x.assign(st, name, vs.Values[i], x.eval(st, vs.Values[i]))
 			case len(vs.Values) == 0:
 				zero := &c20Val{kind: "const", disp: "zero value"}
 				if b, ok := x.info.TypeOf(name).Underlying().(*types.Basic); ok && b.Info()&types.IsNumeric != 0 {
@@ -593,6 +660,7 @@ type c20Leaf struct {
 	tag ast.Expr
 	val ast.Expr
 	pol bool
+	bv  *c20Val // a boolean value (of a variable that was defined by a comparison or a connective)
 }
 
 // c20DNF returns the alternatives (each a conjunction of leaves) under which
@@ -652,6 +720,10 @@ func c20Allowed(op token.Token, pol bool) uint8 {
 
 func (x *c20Exec) compare(st *c20State, xe ast.Expr, op token.Token, ye ast.Expr, pol bool) {
 	a, b := x.eval(st, xe), x.eval(st, ye)
+	x.compareVals(st, a, op, b, pol)
+}
+
+func (x *c20Exec) compareVals(st *c20State, a *c20Val, op token.Token, b *c20Val, pol bool) {
 	allowed := c20Allowed(op, pol)
 	aC := a.kind == "const" && a.hasK
 	bC := b.kind == "const" && b.hasK
@@ -726,6 +798,10 @@ func c20RemKey(num, den *c20Val) string {
 }
 
 func (x *c20Exec) applyLeaf(st *c20State, l c20Leaf) {
+	if l.bv != nil {
+		x.applyBool(st, l.bv, l.pol, true)
+		return
+	}
 	if l.tag != nil {
 		st.conds = append(st.conds, fmt.Sprintf("%s %s %s", types.ExprString(l.tag), map[bool]string{true: "==", false: "!="}[l.pol], types.ExprString(l.val)))
 		if b, ok := x.info.TypeOf(l.tag).Underlying().(*types.Basic); ok && b.Info()&types.IsBoolean != 0 {
@@ -769,19 +845,7 @@ func (x *c20Exec) applyLeaf(st *c20State, l c20Leaf) {
 			return
 		}
 	}
-	v := x.eval(st, e)
-	if v.kind == "call" || v.kind == "opaque" {
-		st.opaque++
-		for d := range v.deps {
-			st.opqDep[d] = true
-		}
-		return
-	}
-	if old, ok := st.bools[v.id]; ok && old != l.pol {
-		st.dead = true
-		return
-	}
-	st.bools[v.id] = l.pol
+	x.applyBool(st, x.eval(st, e), l.pol, false)
 }
 
 // run enumerates the paths from the entry. at is called before a node is
@@ -794,10 +858,28 @@ func (x *c20Exec) run(at func(st *c20State, l Loc, n ast.Node) bool, atExit func
 const c20MaxPaths = 20000
 
 func (x *c20Exec) dfs(b *cfg.Block, st *c20State, at func(*c20State, Loc, ast.Node) bool, atExit func(*c20State, *cfg.Block)) {
+	x.dfsFrom(b, 0, st, at, atExit)
+}
+
+func (x *c20Exec) dfsFrom(b *cfg.Block, from int, st *c20State, at func(*c20State, Loc, ast.Node) bool, atExit func(*c20State, *cfg.Block)) {
 	if x.overflow {
 		return
 	}
-	for i, n := range b.Nodes {
+	for i := from; i < len(b.Nodes); i++ {
+		n := b.Nodes[i]
+		if calls := x.helperCalls(n); len(calls) > 0 {
+			// calls of helper functions the rules do not know: executed in the caller's state, path by path
+			idx := i
+			x.resolveCalls(st, calls, func(st2 *c20State) {
+				if at != nil && at(st2, Loc{b, idx}, n) {
+					x.paths++
+					return
+				}
+				x.step(st2, n)
+				x.dfsFrom(b, idx+1, st2, at, atExit)
+			})
+			return
+		}
 		if at != nil && at(st, Loc{b, i}, n) {
 			x.paths++
 			return
@@ -827,7 +909,7 @@ func (x *c20Exec) dfs(b *cfg.Block, st *c20State, at func(*c20State, Loc, ast.No
 			if cond.Tag != nil {
 				alts = [][]c20Leaf{{{tag: cond.Tag, val: cond.Expr, pol: si == 0}}}
 			} else {
-				alts = c20DNF(cond.Expr, si == 0)
+				alts = x.expandAlts(st, c20DNF(cond.Expr, si == 0))
 			}
 		}
 		for _, alt := range alts {
@@ -1005,6 +1087,7 @@ func runC20(c *Ctx) {
 	c.expect("C20.m", 2)  // kitty put, delete
 	c.expect("C20.n", 1)  // full block
 	c.expect("C20.p", 10) // width and height of the four image kinds + pixel origin of the two block kinds
+	c20NormaliseLits(c)
 	pk := c.P.Pkg("vaxis")
 	if pk == nil {
 		c.undecided("C20.a", "vaxis", 0, "package not loaded")
@@ -1706,49 +1789,7 @@ func c20ResizeMethod(c *Ctx, k *c20Kind) {
 // ---------------------------------------------------------------------------
 // block images: clauses e and i
 
-// c20CellLit reads a Cell composite literal: glyph constant, foreground and background expressions.
-func c20CellLit(info *types.Info, e ast.Expr) (glyph string, fg, bg ast.Expr, ok bool) {
-	field := func(lit *ast.CompositeLit, name string) ast.Expr {
-		st, _ := info.TypeOf(lit).Underlying().(*types.Struct)
-		for i, el := range lit.Elts {
-			if kv, isKV := el.(*ast.KeyValueExpr); isKV {
-				if id, isID := kv.Key.(*ast.Ident); isID && id.Name == name {
-					return kv.Value
-				}
-				continue
-			}
-			if st != nil && i < st.NumFields() && st.Field(i).Name() == name {
-				return el
-			}
-		}
-		return nil
-	}
-	lit, isLit := unparen(e).(*ast.CompositeLit)
-	if !isLit || !c20IsNamed(info.TypeOf(lit), modPath, "Cell") {
-		return "", nil, nil, false
-	}
-	ch, _ := unparen(c20Or(field(lit, "Character"))).(*ast.CompositeLit)
-	if ch == nil {
-		return "", nil, nil, false
-	}
-	gr := field(ch, "Grapheme")
-	if gr == nil {
-		return "", nil, nil, false
-	}
-	tv, has := info.Types[gr]
-	if !has || tv.Value == nil || tv.Value.Kind() != constant.String {
-		return "", nil, nil, false
-	}
-	glyph = constant.StringVal(tv.Value)
-	if sty := field(lit, "Style"); sty != nil {
-		sl, isSL := unparen(sty).(*ast.CompositeLit)
-		if !isSL {
-			return "", nil, nil, false
-		}
-		fg, bg = field(sl, "Foreground"), field(sl, "Background")
-	}
-	return glyph, fg, bg, true
-}
+// (Cell values are read by (*c20Exec).cellOf, c20ip.go: a literal, or a variable built from a literal and field assignments.)
 
 func c20Or(e ast.Expr) ast.Expr {
 	if e == nil {
@@ -1849,11 +1890,10 @@ func c20BlockKind(c *Ctx, k *c20Kind) {
 		return fmt.Sprintf("unknown (alpha in [%s,%s], threshold %d)", c20Bound(lo), c20Bound(hi), T)
 	}
 	// colourOf classifies a colour expression: "default", "pixel" (RGBColor of results 0..2 of call), or a description
-	colourOf := func(st *c20State, e ast.Expr, calls map[string]*c20Val) string {
-		if e == nil {
+	colourOf := func(st *c20State, v *c20Val, calls map[string]*c20Val) string {
+		if v == nil {
 			return "default"
 		}
-		v := x.eval(st, e)
 		if v.kind == "const" && v.hasK && v.k == 0 {
 			return "default"
 		}
@@ -2101,10 +2141,10 @@ func c20BlockKind(c *Ctx, k *c20Kind) {
 			}
 			agg.ok("C20.e", keyThr, p, "thresholds agree with transparentEnough = %d", T)
 			key := fmt.Sprintf("%s/cell for top pixel %s, bottom pixel %s", name, sTop, sBot)
-			glyph, fg, bg, ok := c20CellLit(info, rhs)
+			glyph, fg, bg, ok := x.cellOf(st, rhs)
 			halves, known := c20Glyphs[glyph]
 			if !ok || !known {
-				agg.und("C20.i", key, p, "the stored value is not a Cell literal with a constant block glyph (%q)", glyph)
+				agg.und("C20.i", key, p, "the stored value is not a Cell built from a literal with a constant block glyph (%q)", glyph)
 				return
 			}
 			calls := map[string]*c20Val{"top": tuple[top], "bottom": tuple[bot]}
@@ -2151,7 +2191,7 @@ func c20BlockKind(c *Ctx, k *c20Kind) {
 			}
 			agg.ok("C20.e", keyThr, p, "threshold agrees with transparentEnough = %d", T)
 			key := fmt.Sprintf("%s/cell for %s average", name, sA)
-			shown := colourOf(st, rhs, map[string]*c20Val{"average": avgCall})
+			shown := colourOf(st, x.eval(st, rhs), map[string]*c20Val{"average": avgCall})
 			want := "average"
 			if sA == "transparent" {
 				want = "default"
@@ -2269,7 +2309,7 @@ func c20BlockDraw(c *Ctx, k *c20Kind) {
 		switch {
 		case cell == elem:
 		default:
-			glyph, fg, bg, ok := c20CellLit(info, call.Args[2])
+			glyph, fg, bg, ok := x.cellOf(st, call.Args[2])
 			halves, known := c20Glyphs[glyph]
 			if !ok || !known || halves[0] != halves[1] {
 				probs = append(probs, "the cell drawn is neither the stored cell nor a one-colour block literal")
@@ -2279,7 +2319,7 @@ func c20BlockDraw(c *Ctx, k *c20Kind) {
 			if halves[0] == 'F' {
 				shown = fg
 			}
-			if shown == nil || x.eval(st, shown) != elem {
+			if shown == nil || shown != elem {
 				probs = append(probs, fmt.Sprintf("the visible colour of glyph %q is not the stored colour of cell i", glyph))
 			}
 		}
@@ -2537,7 +2577,7 @@ func c20SamePlacement(c *Ctx) {
 		}
 		var out []outcome
 		for _, pol := range []bool{true, false} {
-			for _, alt := range c20DNF(e, pol) {
+			for _, alt := range x.expandAlts(st, c20DNF(e, pol)) {
 				s2 := st.clone()
 				for _, l := range alt {
 					x.applyLeaf(s2, l)
@@ -2714,18 +2754,7 @@ func c20Render(c *Ctx) {
 		return ok && info.Uses[id] == recv
 	}
 	// loops
-	var loops []*c20Loop
-	for _, b := range g.Blocks {
-		if b.Kind == cfg.KindRangeLoop && len(b.Succs) == 2 {
-			if rs, ok := b.Stmt.(*ast.RangeStmt); ok {
-				l := &c20Loop{head: b, rs: rs}
-				if id, ok := rs.Value.(*ast.Ident); ok {
-					l.val = info.Defs[id]
-				}
-				loops = append(loops, l)
-			}
-		}
-	}
+	loops := c20ListLoops(g, info)
 	loopOfVar := map[types.Object]*c20Loop{}
 	for _, l := range loops {
 		if l.val != nil {
@@ -2823,8 +2852,40 @@ func c20Render(c *Ctx) {
 			return false
 		}
 	}
+	// listIs: e denotes recv.<list>: the field itself, or a local defined once as the field inside an
+	// iteration of outer that does not assign the field
+	listIs := func(e ast.Expr, list string, outer *c20Loop) bool {
+		if recvField(e, list) {
+			return true
+		}
+		id, ok := unparen(e).(*ast.Ident)
+		if !ok || outer == nil {
+			return false
+		}
+		v, ok := info.Uses[id].(*types.Var)
+		if !ok || v.IsField() || v.Pos() < outer.rs.Body.Pos() || v.Pos() > outer.rs.Body.End() {
+			return false
+		}
+		def := singleDefOf(info, v)
+		if def == nil || !recvField(def, list) {
+			return false
+		}
+		return !containsNode(outer.rs.Body, func(n ast.Node) bool {
+			as, ok := n.(*ast.AssignStmt)
+			if !ok {
+				return false
+			}
+			for _, l := range as.Lhs {
+				if recvField(l, list) {
+					return true
+				}
+			}
+			return false
+		})
+	}
 	// the edge is only taken when samePlacement(v, an element of recv.<list>) holds
 	isMatchEdge := func(v types.Object, list string) func(*cfg.Block, int) bool {
+		outer := loopOfVar[v]
 		return func(b *cfg.Block, si int) bool {
 			alts := edgeAlts(b, si)
 			if len(alts) == 0 {
@@ -2833,22 +2894,20 @@ func c20Render(c *Ctx) {
 			for _, alt := range alts {
 				found := false
 				for _, l := range alt {
-					call, ok := unparen(l.e).(*ast.CallExpr)
-					if !ok || !l.pol || len(call.Args) != 2 {
-						continue
-					}
-					if fn := calleeOf(info, call); fn == nil || repoName(fn) != "vaxis.samePlacement" {
-						continue
-					}
-					var objs [2]types.Object
-					for i, a := range call.Args {
-						if id, ok := unparen(a).(*ast.Ident); ok {
-							objs[i] = info.Uses[id]
+					if objs, ok := c20SamePlacementLeaf(info, l); ok {
+						for i := 0; i < 2; i++ {
+							if objs[i] == v {
+								if il := loopOfVar[objs[1-i]]; il != nil && listIs(il.rs.X, list, outer) {
+									found = true
+								}
+							}
 						}
+						continue
 					}
-					for i := 0; i < 2; i++ {
-						if objs[i] == v {
-							if il := loopOfVar[objs[1-i]]; il != nil && recvField(il.rs.X, list) {
+					// a membership helper: H(v, recv.<list>) (see c20mem.go)
+					if call, ok := unparen(c20Or(l.e)).(*ast.CallExpr); ok && l.pol {
+						if m := c20MembershipOf(c, info, calleeOf(info, call)); m != nil && m.elem < len(call.Args) && m.lst < len(call.Args) {
+							if id, ok := unparen(call.Args[m.elem]).(*ast.Ident); ok && info.Uses[id] == v && listIs(call.Args[m.lst], list, outer) {
 								found = true
 							}
 						}
@@ -3458,7 +3517,6 @@ func c20KittyCommands(c *Ctx, k *c20Kind, idField string) {
 	c.check(okDel, "C20.m", keyDel, del.pos, "a=d,d=i with the same image id and placement id as the put command",
 		"the delete command is not d=i (lower case keeps the data that writeTo will not upload again) with the put command's i= and p= values: a dropped placement stays, or a refreshed image never reappears")
 }
-
 
 // ---- path-sensitive treatment of local boolean flags in the placement loops (C20.d)
 
